@@ -1,5 +1,5 @@
 #!/bin/bash
-# usage: equiv_lane.sh LANE dir...   (each dir has patch.diff): run ALL checks against the refactored tree; any VIOLATION is a false alarm
+# dev helper (not part of any registered check). usage: equiv_lane.sh LANE dir...   (each dir has patch.diff): run ALL checks against the refactored tree; any VIOLATION is a false alarm
 L=$1; shift
 for SRC in "$@"; do
   ID=$(basename $SRC)
